@@ -418,6 +418,12 @@ V("f-save-restore-narrow-handler", "fire", ["C20"], PO, "        finally:\n     
   "        except (OSError, pickle.PicklingError):\n            for attr, value in non_picklable_backups.items():\n                setattr(self, attr, value)\n            raise\n        for attr, value in non_picklable_backups.items():\n            setattr(self, attr, value)\n", note="restored only for two kinds of failure; a member whose __reduce__ raises anything else leaves the object stripped")
 V("s-save-restore-except-reraise", "silent", ["C20"], PO, "        finally:\n            # Restore all non-picklable objects\n            for attr, value in non_picklable_backups.items():\n                setattr(self, attr, value)\n",
   "        except BaseException:\n            for attr, value in non_picklable_backups.items():\n                setattr(self, attr, value)\n            raise\n        for attr, value in non_picklable_backups.items():\n            setattr(self, attr, value)\n", note="restoration on every exit without the word finally")
+V("f-front-single-objective", "fire", ["C17"], CRV, "        if len(minimize_vars) == 1:\n            # z3 enumerates a front only for two or more objectives: with a single one every\n            # check() returns the same optimum again, and that optimum is the whole front\n            break\n", "",
+  note="F18 reverted: the loop waits for an unsat that z3 never reports for one objective")
+V("s-front-repeated-point", "silent", ["C17", "C19"], CRV, "    results: list[dict[str, int]] = []\n    while opt.check() == z3.sat:\n        m = opt.model()\n        results.append(_int_values(m))\n        if len(minimize_vars) == 1:\n            # z3 enumerates a front only for two or more objectives: with a single one every\n            # check() returns the same optimum again, and that optimum is the whole front\n            break\n",
+  "    results: list[dict[str, int]] = []\n    seen = set()\n    while opt.check() == z3.sat:\n        values = _int_values(opt.model())\n        point = tuple(values.get(v) for v in minimize_vars)\n        if point in seen:\n            break\n        seen.add(point)\n        results.append(values)\n",
+  note="the other repair: stop at a repeated point")
+V("f-front-cap-off-by-one", "fire", ["C17"], CRV, "        if max_solutions is not None and len(results) >= max_solutions:\n            break\n\n    return results", "        if max_solutions is not None and len(results) > max_solutions:\n            break\n\n    return results")
 
 
 def main():
